@@ -20,6 +20,20 @@ pub struct Recorder {
     pub events: Vec<Logged>,
     pub step: usize,
     pub enabled: bool,
+    /// name of the data file as the storage currently knows it (follows rename events)
+    pub path: Option<String>,
+    /// when set: before every `snap_stride`-th mutating call the *real* files (looked up by name, the way a
+    /// restarted process would find them) are copied to `<snap_dir>/<k>.data` / `<k>.wal`
+    pub snap_dir: Option<String>,
+    pub snap_stride: usize,
+    pub snaps: Vec<usize>,
+}
+
+pub fn wal_of(path: &str) -> String {
+    match path.rfind('/') {
+        Some(i) => format!("{}/.{}", &path[..i], &path[i + 1..]),
+        None => format!(".{path}"),
+    }
 }
 
 pub type Shared = Rc<RefCell<Recorder>>;
@@ -34,6 +48,19 @@ pub fn install() -> Shared {
         let mut r = r2.borrow_mut();
         if r.enabled {
             let step = r.step;
+            let k = r.events.len();
+            if let (Some(path), Some(dir)) = (r.path.clone(), r.snap_dir.clone()) {
+                if r.snap_stride > 0 && k % r.snap_stride == 0 {
+                    let _ = std::fs::write(format!("{dir}/{k}.data"), std::fs::read(&path).unwrap_or_default());
+                    let _ = std::fs::write(format!("{dir}/{k}.wal"), std::fs::read(wal_of(&path)).unwrap_or_default());
+                    r.snaps.push(k);
+                }
+            }
+            if let FsOp::Rename { to } = &ev.op {
+                if ev.file == FsFile::Data {
+                    r.path = Some(to.clone());
+                }
+            }
             r.events.push(Logged {
                 ev: ev.clone(),
                 step,
